@@ -260,6 +260,11 @@ def make_shims(sched, tracer):
 
         def start(self):
             sched.point('start')
+            # nested pools / prefetch threads: virtual thread names stay unique
+            base, k = self.vname, 1
+            while self.vname in sched.vts:
+                k += 1
+                self.vname = f'{base}~{k}'
             vt = VT(self.vname)
             vt.state = 'waiting'
             vt.pending = ('begin', lambda: True)
@@ -511,9 +516,13 @@ def shared_cell_lines(module):
 class Controlled:
     """Context manager: parallel_utils runs under `sched` inside the block."""
 
-    def __init__(self, choose):
+    def __init__(self, choose, line_files=()):
+        """line_files: source files in which EVERY line executed by a virtual
+        thread is a scheduling point once a second thread exists (dataset code
+        shared between pool workers)."""
         import lazy_dataset.parallel_utils as pu
         self.pu = pu
+        line_files = frozenset(line_files)
         self.sched = Scheduler(choose)
         self.lines = shared_cell_lines(pu)
         # ordinal tags: the k-th line (in source order) per (thread role, cell, kind)
@@ -553,9 +562,19 @@ class Controlled:
                           tags[frame.f_lineno], val)
             return local_trace
 
+        def shared_trace(frame, event, arg):
+            if event == 'line' and len(sched.vts) >= 2 and not sched.aborted \
+                    and getattr(sched.tls, 'vt', None) is not None:
+                sched.point('ln')
+            return shared_trace
+
         def tracer(frame, event, arg):
-            if event == 'call' and frame.f_code.co_filename == self.file:
-                return local_trace
+            if event == 'call':
+                fn = frame.f_code.co_filename
+                if fn == self.file:
+                    return local_trace
+                if fn in line_files:
+                    return shared_trace
             return None
         self.tracer = tracer
         self.shims = make_shims(sched, tracer)
